@@ -217,6 +217,16 @@ def check_hooks(run, ix):
                 continue
             rets = [x for x in _walk_own(f.node) if isinstance(x, ast.Return)]
             exact = all(isinstance(r.value, ast.Name) and r.value.id == f.params[0] for r in rets) and rets
+            if not exact and cname == '_constant' and h == '__reduce__':
+                why = constant_reduce_problem(ix, m, f, rets)
+                if why is None:
+                    run.ok('P-R3', '_constant.__reduce__ names the registered object itself (lookup by name, no '
+                           'constructor)')
+                    continue
+                bad = True
+                run.fail(Finding('P-R3', CTXPY, f.qualname, norm(rets[0]) if rets else 'def %s' % h, why,
+                                 line=f.lineno))
+                continue
             if exact:
                 run.ok('P-R3', '%s.%s returns the (immutable) object itself' % (cname, h))
             else:
@@ -228,6 +238,59 @@ def check_hooks(run, ix):
                                  line=f.lineno))
         if not bad:
             run.ok('P-R3', '%s: no pickling/copy hook besides the state pair' % cname)
+
+
+def constant_reduce_problem(ix, m, f, rets):
+    """A lazy constant holds no value of its own (it is evaluated at the precision of each use), so it is pickled as
+    a REFERENCE: __reduce__ may return (lookup, (self.name,)) where `lookup` is a module-level function returning
+    REGISTRY[name] -- the object itself, nothing is constructed or rounded -- provided (a) it refuses (raises) unless
+    REGISTRY.get(self.name) is self, so that an object that would not come back as itself is never written, and
+    (b) the package initialisation fills REGISTRY with the global context's constants under their .name."""
+    me = f.params[0]
+    if len(rets) != 1 or not (isinstance(rets[0].value, ast.Tuple) and len(rets[0].value.elts) == 2):
+        return 'the hook does not return (lookup function, (name,))'
+    fn, args = rets[0].value.elts
+    if not (isinstance(fn, ast.Name) and isinstance(args, ast.Tuple) and len(args.elts) == 1 and
+            norm(args.elts[0]) == '%s.name' % me):
+        return 'the hook does not name the object by its .name'
+    look = m.funcs.get(fn.id)
+    if look is None:
+        return 'the lookup function %s is not a module-level function' % fn.id
+    lrets = [x for x in _walk_own(look.node) if isinstance(x, ast.Return)]
+    if not (len(lrets) == 1 and isinstance(lrets[0].value, ast.Subscript) and
+            isinstance(lrets[0].value.value, ast.Name) and norm(lrets[0].value.slice) == look.params[0]):
+        return 'the lookup function builds a value instead of returning REGISTRY[name]'
+    reg = lrets[0].value.value.id
+    guard = [x for x in _walk_own(f.node) if isinstance(x, ast.If) and
+             any(isinstance(b, ast.Raise) for b in ast.walk(x)) and
+             norm(x.test).replace(' ', '') in ('%s.get(%s.name)isnot%s' % (reg, me, me),
+                                               'not%s.get(%s.name)is%s' % (reg, me, me))]
+    if not guard:
+        return 'an object that is not the registered one under its name is written all the same: it would come ' \
+               'back as a different object'
+    init = ix.module(INIT)
+    filled = [x for x in ast.walk(init.tree) if isinstance(x, ast.Call) and isinstance(x.func, ast.Attribute) and
+              x.func.attr == 'update' and norm(x.func.value).endswith('.' + reg)]
+    if not filled or '.name' not in norm(filled[0], 300):
+        return 'the registry %s is not filled by the package initialisation' % reg
+    return None
+
+
+def check_constant_entries(run, ix):
+    """P-R6.  "Matrices of mixed entries": convert() keeps a lazy constant (pi, e, eps, ...) as a matrix entry, so
+    copying or pickling such a matrix copies or pickles the constant object.  Its class is created per context
+    with type() and its __new__ needs arguments, so the default protocol fails: the class must define __copy__ and
+    __deepcopy__ (returning the immutable object itself) and a __reduce__ (checked by P-R3)."""
+    c = ix.module(CTXPY).classes.get('_constant')
+    if c is None:
+        raise AnalysisError('class _constant vanished')
+    for h in ('__copy__', '__deepcopy__', '__reduce__'):
+        if c.methods.get(h) is not None:
+            run.ok('P-R6', '_constant defines %s' % h)
+        else:
+            run.fail(Finding('P-R6', CTXPY, '_constant', 'def %s' % h, 'the class of the lazy constants has no %s: '
+                             'copy.copy / copy.deepcopy / pickle of a constant, and of a matrix holding one '
+                             '(matrix([[pi, 1], [0, 2]])), fail' % h, line=c.node.lineno))
 
 
 def check_dynamic_classes(run, ix):
@@ -407,6 +470,7 @@ def run(run, ix, tier):
     run.rule('P-R3', floor=4)
     run.rule('P-R4', floor=3)
     run.rule('P-R5', floor=3)
+    run.rule('P-R6', floor=3, desc='lazy constants (possible matrix entries) can be copied and pickled')
     check_codec(run, ix)
     n = check_state_pairs(run, ix)
     if n < 2:
@@ -414,3 +478,4 @@ def run(run, ix, tier):
     check_hooks(run, ix)
     check_dynamic_classes(run, ix)
     check_matrix_copy(run, ix)
+    check_constant_entries(run, ix)
